@@ -137,6 +137,7 @@ class World(object):
         self.trace = []
         self.seq = 0
         self.requests = 0
+        self.frames = 0
         self.restarts = 0
         self.escapes = []
         self.last_escape = None
@@ -209,6 +210,7 @@ class World(object):
         frames the session sent."""
         s, conn = self.session(ai)
         conn.feed(frame, chunks)
+        self.frames += 1
         self.last_escape = None
         try:
             s._handle_message_loop()
